@@ -3,6 +3,7 @@ import XPathV.Lemmas.Facts
 import XPathV.Lemmas.RootedPlans
 import XPathV.Lemmas.Compose
 import XPathV.Lemmas.Compose2
+import XPathV.Lemmas.Pull2.Context
 /-!
 # C13 — absolute paths ignore the start node; relative paths compose with the context
 
@@ -13,6 +14,11 @@ the model side through `C01_main`, and the wrapper identities).
 Fragment: `PathPF` = predicate-free location paths over the 12 axes (any node test);
 `AbsPF` = those whose leaf is `/`; `RelPF` = those whose leaf is the context node.
 `appendPath q p` is the parse tree of `q/p`.
+
+Iterator level (`Model/Pull2.lean`, all sixteen node-set iterator types as Go-like state machines
+sharing the context node `t.Current()`): `C13_select_leaves_context_node` — no `Select` leaves the
+context node moved, so whatever is evaluated after an earlier operand, argument or predicate sees
+the context node it was meant to see (proof: `Lemmas/Pull2/Context.lean`).
 -/
 namespace XPathV.Theorems.C13
 open XPathV XPathV.Model XPathV.Facts XPathV.PathSem XPathV.Compose NumAlg
@@ -158,6 +164,27 @@ theorem C13_compose_spec_with_predicates (d : Doc) {q p : Ast} (hq : Frag true q
     x ∈ nodesOf (Spec.eval (F := F) d (appendPath2 q p) c) ↔
       ∃ n ∈ nodesOf (Spec.eval (F := F) d q c), x ∈ nodesOf (Spec.eval (F := F) d p ⟨n, 1, 1⟩) :=
   eval_append2 d hq hp c x
+
+/-- **C13, the context survives evaluation of an earlier operand or predicate (iterator level).**
+`q` is any state of any of the sixteen node-set iterator types (over inputs of any of them: a filter
+over a union, a merge whose child is a `following::` walk, …; mid-iteration, exhausted, reachable or
+not), `cur` the context node `t.Current()` of the evaluation, `dec` any predicate decision, `d` any
+document.  If `q.Select(t)` answers — a node (`.yield`) or `nil` (`.done`) — then `t.Current()`
+afterwards is `cur`: the filter's predicate ran on the candidates and the caller's node was put back,
+the merge's child ran on each parent and the node was put back, the non-sibling `following::`/
+`preceding::` walks did not touch it, and what a union leaves is what its right operand leaves.
+(`.fuel`, "the model ran out of fuel", is not an outcome of the Go code.) -/
+theorem C13_select_leaves_context_node (d : Doc) (cfg : ECfg) (dec : Plan → Ref → Bool) (f : Nat) (q : PQ2)
+    (cur : Ref) (out : Res Ref) (q' : PQ2) (cur' : Ref)
+    (h : PQ2.select d cfg dec f q cur = (out, q', cur')) (hne : out ≠ .fuel) : cur' = cur :=
+  select_preserves_context d cfg dec f q cur out q' cur' h hne
+
+/-- … and a `MoveNext` that returns false (the operand is exhausted) leaves it where it was, too
+(one that returns true moves the iterator's node onto the node it reports: that is its result) -/
+theorem C13_moveNext_false_leaves_context_node (d : Doc) (cfg : ECfg) (dec : Plan → Ref → Bool) (f : Nat)
+    (q : PQ2) (cur : Ref) (q' : PQ2) (cur' : Ref)
+    (h : PQ2.moveNext d cfg dec f q cur = some (false, q', cur')) : cur' = cur :=
+  moveNext_false_context d cfg dec f q cur q' cur' h
 
 private def stepA (n : String) : AxisInfo := { axis := "child", typeTest := default, pfx := "", lname := n, prop := "", hasNS := false, nsURI := "" }
 
